@@ -2867,6 +2867,21 @@ def c10_apply(idnt, caller, op):
                 out["ret"] = [digest_array(np.asarray(r[0])),
                               digest_array(np.asarray(r[1]))]
                 caller.hold(op["slot"], (r[0], r[1]), returned=True)
+            elif kind == "get_rater_kw":
+                # the convenience constructor with the caller's own
+                # regressor keywords, then a rating with the defaults
+                import nanite.rate
+                rkw = A("kw", op["kw"])
+                X = np.random.Generator(np.random.PCG64(3)).random((3, 15))
+                r0 = nanite.rate.get_rater(op["regressor"])
+                d0 = digest_array(np.asarray(r0.rate(samples=X)))
+                r1 = nanite.rate.get_rater(op["regressor"], **rkw)
+                r2 = nanite.rate.get_rater(op["regressor"])
+                out["ret"] = [digest_array(np.asarray(r1.rate(samples=X))),
+                              digest_array(np.asarray(r2.rate(samples=X)))]
+                # a call with own keywords in between changes nothing for
+                # a call without
+                out["defaults_changed"] = d0 != out["ret"][1]
             elif kind == "make_rater":
                 # the rater constructed directly, with the caller's own
                 # training set and sample weights
@@ -2937,7 +2952,7 @@ def c10_gen_scenario(rng, sid):
     kind = rng.choice(["params", "params", "init", "init", "steps",
                        "options", "method_kws", "range_x", "names",
                        "force", "model", "samples", "trainset", "loadts",
-                       "weights"])
+                       "weights", "raterkw"])
     s = f"{kind}{sid}"
     extra = {}
     if rng.random() < 0.4:
@@ -2970,6 +2985,13 @@ def c10_gen_scenario(rng, sid):
          "value": False},
         {"kind": "param", "name": rng.choice(["R", "alpha", "nu"]),
          "attr": "value", "value": rng.choice([0.4, 3e-6, 12])},
+        # small steps of quantities in SI units
+        {"kind": "param", "name": "contact_point", "attr": "value",
+         "value": rng.choice([4e-9, 8e-9, -6e-9, 1e-10])},
+        {"kind": "param", "name": "R", "attr": "value",
+         "value": rng.choice([1.0000004e-5, 1.0000001e-5])},
+        {"kind": "param", "name": "baseline", "attr": "value",
+         "value": rng.choice([1e-12, -3e-13])},
     ]
     ops = []
     if kind == "params":
@@ -3112,6 +3134,20 @@ def c10_gen_scenario(rng, sid):
                                  if c not in names])}})
         ops.append({"op": "rate", "args": {"regressor": "Decision Tree",
                                            "names": {"slot": s}}})
+    elif kind == "raterkw":
+        reg = rng.choice(["Decision Tree", "Decision Tree", "Extra Trees"])
+        ops.append({"op": "new", "slot": s, "what": "method_kws",
+                    "spec": rng.choice([{"max_depth": 1},
+                                        {"min_samples_leaf": 40},
+                                        {"max_depth": 2,
+                                         "random_state": 7}])})
+        ops.append({"op": "get_rater_kw", "regressor": reg,
+                    "kw": {"slot": s}})
+        ops.append({"op": "mutate", "slot": s, "edit": {
+            "kind": "dict_set", "path": ["max_depth"],
+            "value": rng.choice([3, 4])}})
+        ops.append({"op": "get_rater_kw", "regressor": reg,
+                    "kw": {"slot": s}})
     elif kind == "weights":
         st = rng.choice([3, 4])
         ops.append({"op": "new", "slot": s + "t", "what": "trainset",
@@ -3309,6 +3345,12 @@ class CurveEngineC10:
                 violation = make_violation(
                     self.prop, "A2", f"shared-defaults-modified:{g}", feats,
                     f"{op['op']} modified the module-level table {g}", i)
+                break
+            if oa.get("defaults_changed") or ov.get("defaults_changed"):
+                violation = make_violation(
+                    self.prop, "A1", "defaults-changed:get_rater", feats,
+                    "get_rater(name) rates differently after "
+                    "get_rater(name, **keywords) was called in between", i)
                 break
             # A4: what a call returns must not be a view of an argument
             if oa.get("aliases_arg") or ov.get("aliases_arg"):
